@@ -380,6 +380,27 @@ def run(ctx, col: Collector):
         # the scan: a for loop over <...>.enums that contains the store
         loops = [n for n in ast.walk(cb.node) if isinstance(n, ast.For) and norm(n.iter).endswith('.enums') and any(s is x for s in stores for x in ast.walk(n))]
         if not loops:
+            # search-then-use form: `found = e` under a test inside the scan, `self.type = found` afterwards
+            for st in stores:
+                if isinstance(st.value, ast.Name):
+                    for lp in [n for n in ast.walk(cb.node) if isinstance(n, ast.For) and norm(n.iter).endswith('.enums')]:
+                        picks = [a for a in ast.walk(lp) if isinstance(a, ast.Assign) and norm(a.targets[0]) == st.value.id and norm(a.value) == norm(lp.target)]
+                        if picks:
+                            ifs0 = [n for n in ast.walk(lp) if isinstance(n, ast.If) and any(p is x for p in picks for b in n.body for x in ast.walk(b))]
+                            ev0 = norm(lp.target)
+                            lits0 = [c for t in ifs0 for c in conjuncts(term(t.test, True))]
+                            has_name = any(l[0] == 'eq' and f'{ev0}.name' in l[1:] for l in lits0)
+                            has_schema = any(l[0] == 'eq' and f'{ev0}.schema' in l[1:] for l in lits0)
+                            tuple_eq = any(l[0] == 'eq' and any(f'{ev0}.schema' in x and f'{ev0}.name' in x for x in l[1:]) for l in lits0)
+                            if (has_name and has_schema) or tuple_eq:
+                                col.ok('C05-enum', 'ColumnBlueprint.build:search-predicate', 'the search selects on name and schema together', node=lp, file=cb.file)
+                            else:
+                                col.bad('C05-enum', 'ColumnBlueprint.build:search-predicate',
+                                        f'the enum is searched with the predicate `{norm(ifs0[0].test) if ifs0 else "<none>"}` and the first hit is kept: the search does not '
+                                        f'require BOTH the name and the schema to match, so the first enum with a matching name wins even if an enum in the right schema exists',
+                                        node=lp, file=cb.file)
+                            return
+        if not loops:
             # generator / next() based search
             gens = [n for n in ast.walk(cb.node) if isinstance(n, (ast.GeneratorExp, ast.ListComp)) and norm(n.generators[0].iter).endswith('.enums')]
             if gens:
